@@ -40,6 +40,7 @@ class StringConcatViolation:
     line_number: int
     column: int
     loop_type: str  # 'for', 'for_in', 'while', 'do'
+    loop_line: int = 0  # line of the outermost enclosing loop (identifies the loop)
 
 
 # thailint: ignore-next-line[srp.violation] Uses small focused methods to reduce complexity
@@ -50,6 +51,7 @@ class TypeScriptStringConcatAnalyzer(TypeScriptBaseAnalyzer):
         """Initialize the analyzer."""
         super().__init__()
         self._string_variables: set[str] = set()
+        self._loop_lines: list[int] = []  # lines of the loops enclosing the node being visited
 
     def find_violations(self, root_node: Node) -> list[StringConcatViolation]:
         """Find all string concatenation in loop violations.
@@ -112,8 +114,10 @@ class TypeScriptStringConcatAnalyzer(TypeScriptBaseAnalyzer):
         """
         # Track loop entry
         current_loop = loop_type
-        if node.type in LOOP_NODE_TYPES_TS:
+        is_loop = node.type in LOOP_NODE_TYPES_TS
+        if is_loop:
             current_loop = node.type.replace("_statement", "").replace("_", "_")
+            self._loop_lines.append(node.start_point[0] + 1)
 
         # Check for augmented assignment (+=)
         if node.type == "augmented_assignment_expression" and current_loop:
@@ -122,6 +126,9 @@ class TypeScriptStringConcatAnalyzer(TypeScriptBaseAnalyzer):
         # Recurse into children
         for child in node.children:
             self._find_concat_in_loops(child, violations, current_loop)
+
+        if is_loop:
+            self._loop_lines.pop()
 
     def _check_augmented_assignment(
         self, node: Node, violations: list[StringConcatViolation], loop_type: str
@@ -185,6 +192,7 @@ class TypeScriptStringConcatAnalyzer(TypeScriptBaseAnalyzer):
                 line_number=node.start_point[0] + 1,
                 column=node.start_point[1],
                 loop_type=loop_type,
+                loop_line=self._loop_lines[0] if self._loop_lines else 0,
             )
         )
 
@@ -217,20 +225,20 @@ class TypeScriptStringConcatAnalyzer(TypeScriptBaseAnalyzer):
     def deduplicate_violations(
         self, violations: list[StringConcatViolation]
     ) -> list[StringConcatViolation]:
-        """Deduplicate violations to report one per variable.
+        """Deduplicate violations to report one per variable per loop.
 
         Args:
             violations: List of all violations found
 
         Returns:
-            Deduplicated list with one violation per variable
+            Deduplicated list with one violation per variable per loop
         """
-        seen: set[str] = set()
+        seen: set[tuple[str, int]] = set()
         result: list[StringConcatViolation] = []
 
         for v in violations:
-            if v.variable_name not in seen:
-                seen.add(v.variable_name)
+            if (v.variable_name, v.loop_line) not in seen:
+                seen.add((v.variable_name, v.loop_line))
                 result.append(v)
 
         return result
